@@ -111,13 +111,15 @@ Definition jres_eqb (a b : jres) : bool :=
 
 (* ---------- the oracle contract, validated on every table entry of every case ---------- *)
 (* F2: both texts have the shape of a JSON number when the value is finite; F1: they parse back to the same float64;
-   F3: the literals true/false are not floats *)
+   F3: the literals true/false are not floats; F5: the 'e' format contains an 'e' or a '.' (from which the theorems derive that the
+   text is never an integer literal - checked here directly as well) *)
 Definition contract_ok (t : tables) : bool :=
   forallb (fun e => let b := fst e in
                     if is_finite b && fbits_ok b then
                       match parse_num_text (m_ser_float t b) with Some _ => true | None => false end &&
                       option_eqb Z.eqb (tb_pfloat t (m_ser_float t b)) (Some b) &&
-                      match pint0 (m_ser_float t b) with None => true | Some _ => false end
+                      match pint0 (m_ser_float t b) with None => true | Some _ => false end &&
+                      (contains_byte x65 (tb_fmt_e t b) || contains_byte x2e (tb_fmt_e t b))      (* F5 *)
                     else true) (t_fmt t) &&
   match tb_pfloat t (B"true"), tb_pfloat t (B"false") with None, None => true | _, _ => false end.
 
